@@ -259,9 +259,33 @@ def gen_list_first_shape(rng):
     return [4, inner, gen_shape(rng, 1)]        # a keyed list whose first row is a keyed list
 
 
-def with_remounts(rng, ls):
-    """now and then the list is unmounted and mounted again between two updates"""
-    if rng.random() < 0.75:
+def with_hidden_updates(rng, ls):
+    """the list is updated while it is not in the DOM: build, update(s), first mount; or mount, unmount (a parent hides
+    it and keeps the state), update(s), mount"""
+    out, hidden = [ls[0]], False
+    if rng.random() < 0.4:
+        out.append([-4])
+        hidden = True
+    for l in ls[1:]:
+        r = rng.random()
+        if hidden and r < 0.45:
+            out.append([-3])
+            hidden = False
+        elif not hidden and r < 0.45:
+            out.append([-2])
+            hidden = True
+        out.append(l)
+    if hidden and rng.random() < 0.8:
+        out.append([-3])
+    return out
+
+
+def with_remounts(rng, ls, plain=False):
+    """now and then the list is unmounted and mounted again between two updates, or updated while it is hidden"""
+    r = rng.random()
+    if r < 0.15 and not plain:
+        return with_hidden_updates(rng, ls)
+    if r < 0.8:
         return ls
     out = [ls[0]]
     for l in ls[1:]:
@@ -312,7 +336,7 @@ def generate(rng, tier):
         ls = [rand_list(rng, 6, nk)]
         for _ in range(rng.randint(1, 5)):
             ls.append(mutate(rng, ls[-1], nk) if rng.random() < 0.8 else rand_list(rng, 6, nk))
-        yield dict(case=C.norm([mode, npre, npost, with_remounts(rng, ls)]),
+        yield dict(case=C.norm([mode, npre, npost, with_remounts(rng, ls, True)]),
                    kind="keyed+add_any_attr, String keys" if mode == 4 else "keyed: to_html -> hydrate -> rebuild")
     # nested <For>: rows that are an inner <For> over their own signal (+ a trailing <li> for odd keys); oracle only
     for i in range(2000 if tier == "quick" else 20000):
@@ -389,16 +413,23 @@ def valid_case(item):
         return False
     if m == 5 and (npre > 1 or npost > 1):
         return False
+    hidden = False
     for i, l in enumerate(ls):
-        if l == [-1] and i > 0 and m in TACHYS_MODES:
+        if l == [-1] and i > 0 and m in TACHYS_MODES and not hidden:
             continue            # unmount + mount again
+        if m in (1, 2, 3, 20) and i > 0 and l in ([-2], [-3], [-4]):
+            # hide (unmount, state kept) / show (mount) / the first mount is deferred (only right after the first list)
+            if (l == [-2] and not hidden) or (l == [-3] and hidden) or (l == [-4] and i == 1):
+                hidden = l != [-3]
+                continue
+            return False
         if not isinstance(l, list) or any((not isinstance(k, int)) or k < 0 for k in l) or len(set(l)) != len(l):
             return False
     return True
 
 
 # ---------------------------------------------------------------------------------------------- oracle
-def check_step(js_of, npre, npost, frm, to, before, old_gen, children, log, plain=False):
+def check_step(js_of, npre, npost, frm, to, before, old_gen, children, log, plain=False, reshown=False):
     """the property statement, checked directly on one observed update.
     js_of(key) = the indices j of the visible nodes of that key's item, in order (range(m) for m-node items);
     before: labels (k,g,j) of the parent's children before the step; old_gen: key -> gen before the step.
@@ -453,7 +484,9 @@ def check_step(js_of, npre, npost, frm, to, before, old_gen, children, log, plai
         g = nodes[0][1]
         new_gen[k] = g
         if k in old_gen:
-            if g != old_gen[k] or not all(same_node(c) for c in nodes):
+            # (a list that is mounted again: its nodes were not in the parent just before; the item is the same iff it
+            # is the same build - nodes are created when the item is built)
+            if g != old_gen[k] or not (reshown or all(same_node(c) for c in nodes)):
                 return "retained key %d did not keep its DOM nodes" % k, None
             if k in builds:
                 return "retained key %d was built again" % k, None
@@ -622,16 +655,59 @@ def oracle(item, impl):
     plain = m in (4, 5)
     before = [(-1, 0, i) for i in range(npre)] + [(-2, 0, j) for j in range(npost)]
     old_gen, frm = {}, []
+    hidden = False
+    sibs = [(-1, 0, i) for i in range(npre)] + [(-2, 0, j) for j in range(npost)]
     for s, (to, step) in enumerate(zip(ls, impl)):
         children, log = step
         if any(c[0] >= 0 and c[2] >= 100 for c in children):
             return "update %d: a row does not carry the attribute added to the list with add_any_attr" % s
+        if s == 0 and len(ls) > 1 and ls[1] == [-4]:
+            hidden = True       # built, not mounted yet
+        if to in ([-2], [-4]) or (hidden and to != [-3]):
+            # the list is (now) not in the DOM: only the siblings are there; an update while hidden calls view_fn
+            # exactly for the new keys, keeps the items of the retained keys
+            if [tuple(c[:3]) for c in children] != sibs:
+                return "step %d: the list is unmounted but the parent holds %r" % (s, [tuple(c[:3]) for c in children])
+            if to == [-2]:
+                hidden = True
+                got = sorted((e[1], e[2]) for e in log if e[0] == 2)
+                if got != sorted(old_gen.items()):
+                    return "step %d (unmount): items unmounted %r, rendered items were %r" % (s, got, sorted(old_gen.items()))
+            elif to != [-4]:
+                builds = {}
+                for e in log:
+                    if e[0] == 3:
+                        builds.setdefault(e[1], []).append(e[2])
+                new_gen = {}
+                for k in to:
+                    if k in old_gen:
+                        if k in builds:
+                            return "update %d (while the list is unmounted, %r -> %r): retained key %d was built again" % (s, frm, to, k)
+                        new_gen[k] = old_gen[k]
+                    elif len(builds.get(k, [])) != 1:
+                        return "update %d (while the list is unmounted): new key %d was built %d times" % (s, k, len(builds.get(k, [])))
+                    else:
+                        new_gen[k] = builds[k][0]
+                if set(builds) - set(to):
+                    return "update %d (while the list is unmounted): view_fn called for %r" % (s, sorted(set(builds) - set(to)))
+                old_gen, frm = new_gen, to
+            elif s == 0:
+                pass
+            if s == 0:
+                # the first entry of a deferred mount: the rows were built (gens from the log)
+                old_gen, frm = {e[1]: e[2] for e in log if e[0] == 3}, to
+                if sorted(old_gen) != sorted(to):
+                    return "build: view_fn called for %r, keys are %r" % (sorted(old_gen), to)
+            before = [tuple(c[:3]) for c in children]
+            continue
         remount = to == [-1]
-        if remount:
-            to = frm        # unmounted and mounted again: same order, same nodes, nothing built
-        msg, new_gen = check_step(js_of, npre, npost, frm, to, before, old_gen, children, log, plain)
+        reshown = to == [-3]
+        if remount or reshown:
+            to = frm        # (unmounted and) mounted again: same order, same items, nothing built
+        msg, new_gen = check_step(js_of, npre, npost, frm, to, before, old_gen, children, log, plain, reshown)
         if msg:
-            return "update %d (%s%r -> %r): %s" % (s, "unmount + mount again, " if remount else "", frm, to, msg)
+            return "update %d (%s%r -> %r): %s" % (s, "mounted again, " if reshown else ("unmount + mount again, " if remount else ""), frm, to, msg)
+        hidden = False
         before = [tuple(c[:3]) for c in children]
         old_gen, frm = new_gen, to
     # the final unmount: exactly the siblings are left, they are the very same nodes, every item was unmounted once
@@ -649,8 +725,11 @@ def oracle(item, impl):
 
 
 def nontrivial(item, model):
-    ls = [l for l in item["case"][3] if l != [-1]]
+    ls = [l for l in item["case"][3] if not (l and l[0] < 0)]
     return any(a != b for a, b in zip(ls, ls[1:]))
+
+
+STEP_NAMES = {(-1,): "unmount+mount", (-2,): "unmount (hidden, state kept)", (-3,): "mount", (-4,): "(not mounted yet)"}
 
 
 def show_shape(s):
@@ -682,7 +761,7 @@ def describe(item):
         sh = item["case"][4]
         return "keyed list whose row for key k is shape[k mod %d] of {%s}, %d leading / %d following siblings: %s; unmount" % (
             len(sh), " ; ".join(show_shape(x) for x in sh), npre, npost,
-            " -> ".join("unmount+mount" if l == [-1] else str(l) for l in ls))
+            " -> ".join(STEP_NAMES.get(tuple(l), str(l)) for l in ls))
     if m == 13:
         bases = item["case"][4]
         return ("leptos nested <For> (outer row k = inner <For> over pick(base, k)%s), %d leading / %d following siblings: outer "
@@ -704,18 +783,18 @@ def describe(item):
             "<For>" if m == 11 else "<ForEnumerate>", npre, npost, " -> ".join(str(l) for l in ls))
     if m == 4:
         return "keyed(items, |k| format!(\"k{k}\"), ..).add_any_attr(class(\"row\")), <span> rows, %d leading / %d following siblings: %s; unmount" % (
-            npre, npost, " -> ".join("unmount+mount" if l == [-1] else str(l) for l in ls))
+            npre, npost, " -> ".join(STEP_NAMES.get(tuple(l), str(l)) for l in ls))
     if m == 5:
         return "keyed list of <li> rows rendered to HTML, hydrated, then updated, %d leading / %d following <b> siblings: %s; unmount" % (
-            npre, npost, " -> ".join("unmount+mount" if l == [-1] else str(l) for l in ls))
+            npre, npost, " -> ".join(STEP_NAMES.get(tuple(l), str(l)) for l in ls))
     return "keyed list, %d node(s) per item, %d leading / %d following siblings: %s; unmount" % (
-        m, npre, npost, " -> ".join("unmount+mount" if l == [-1] else str(l) for l in ls))
+        m, npre, npost, " -> ".join(STEP_NAMES.get(tuple(l), str(l)) for l in ls))
 
 
 def coverage_extra(results):
     pairs = set()
     for r in results:
-        ls = [l for l in r["item"]["case"][3] if l != [-1]]
+        ls = [l for l in r["item"]["case"][3] if not (l and l[0] < 0)]
         for a, b in zip(ls, ls[1:]):
             pairs.add((tuple(a), tuple(b)))
     names = {0: "text", 1: "unit", 2: "span", 3: "tuple", 4: "nested-keyed", 5: "vec", 6: "option", 7: "either", 8: "eitherof3",
